@@ -756,3 +756,11 @@ Proof. destruct d as [|[k' v'] d]; cbn; [discriminate|]. destruct (str_eqb k k')
 
 Lemma dupd_not_nil {V : Type} (d : dict V) k dflt f : dupd d k dflt f <> [].
 Proof. rewrite dupd_dset. apply dset_not_nil. Qed.
+
+Lemma cget_pos_In d k : 0 < cget d k -> In (k, cget d k) d.
+Proof.
+  induction d as [|[k' v] d IH]; cbn; [lia|].
+  destruct (ckey_eqb k k') eqn:E.
+  - apply ckey_eqb_eq in E. subst. intros _. left. reflexivity.
+  - intros H. right. apply IH. assumption.
+Qed.
